@@ -533,7 +533,13 @@ func Run(t *simkit.Tape, o *simkit.Outcome, full bool) {
 		s.Entities = append(s.Entities, [2]string{"ent", "EV"})
 	}
 	// expression from the workload generator, restricted to the bound names
-	if t.Bool(2, 3) {
+	large := false
+	for _, f := range s.Tree {
+		if f.Fault == "large" {
+			large = true
+		}
+	}
+	if t.Bool(2, 3) && !large { // generated expressions can be quadratic: keep them off the large file
 		env := &model.ExprEnv{ElemNames: []string{"a", "b", "c", "item", "div", "p", "span", "#obj", "#arr", "id", "name", "x"}, AttrNames: []string{"a", "b", "id", "class", "href"}, PITargets: []string{"pi", "t"}}
 		for _, kv := range s.NS {
 			env.Prefixes = append(env.Prefixes, kv[0])
@@ -580,6 +586,10 @@ func Run(t *simkit.Tape, o *simkit.Outcome, full bool) {
 		o.Violate(P, "cli-process-abort", "cli-process-abort", "the process died: %s\nargv=%q", run.ExitErr, argv)
 		return
 	}
+	if run.Res.End == "harness" {
+		o.HarnessDoubt("scheduler P gave up (%s) argv=%q", run.Res.Note, argv)
+		return
+	}
 	if run.Res.End != "main-exit" {
 		o.Violate(P, "cli-no-termination", "cli-"+run.Res.End, "the tool did not end normally (%s)\nargv=%q", run.Res.End, argv)
 		return
@@ -615,6 +625,10 @@ func Run(t *simkit.Tape, o *simkit.Outcome, full bool) {
 		}
 		r1, e1 := RunSim(work, tree, single.Argv(1), in, nil, 2, 0)
 		o.Evals++
+		if e1 == nil && r1.ExitErr == "" && r1.Res.End == "harness" {
+			o.HarnessDoubt("scheduler P gave up (%s)", r1.Res.Note)
+			return
+		}
 		if e1 != nil || r1.ExitErr != "" || r1.Res.End != "main-exit" {
 			o.Violate(P, "cli-no-termination", "cli-single-file-run", "the tool did not end normally on the single input %s\nargv=%q", f, single.Argv(1))
 			return
